@@ -1,177 +1,352 @@
 """Gen/WorkersConsts.lean: constants and expressions of the multi-process LCD search (C16, C19).
 
-Everything is located by *shape* inside `KernelDG.check_for_loopcarried_dep`:
-  * the class attribute compared with `len(kernel)` (threshold) and the comparison operator,
-  * the three scheduling expressions (`workload`, the element expressions of the `starts` and
-    `ends` comprehensions over `range(num_cores)`), the slice comprehension `kernel[s:e]`,
-  * the poll loop: `while time.time() - start <= timeout` (operator), the `sleep` literal,
-    the literal that switches the timeout off, and where `self.timed_out = True` stands
-    (directly in the loop's `else`, or guarded by `p.is_alive()`).
-Arithmetic is compiled to Lean `Nat` expressions (`int(a / b)` and `a // b` become Nat division:
-exact for the non-negative operands below 2^53 that occur; `a - b` is truncated subtraction, exact
-whenever the Python value is non-negative -- the correspondence compares the slices actually
-handed to the workers with the model's for every run).
+Everything is located by *role* inside `KernelDG.check_for_loopcarried_dep` (helpers: astutil_G1.py); local
+variable names and the spelling of constants do not matter (parameter names `kernel`, `timeout` are API):
+
+  * klen / num_cores: whatever is bound to `len(kernel)` / `cpu_count()` (or these calls written inline);
+  * threshold: the `if` that compares klen with a constant integer expression (`self.X`, `KernelDG.X`, a
+    module constant, `5 * 10`, ...), either operand order, the parallel part in the `if` or in the `else`
+    branch (`if klen < T: sequential else: parallel` reads as `klen >= T`), `not` resolved;
+  * slices: the comprehension `[kernel[s:e] for s, e in zip(A, B)]`; A and B are followed to their
+    definitions, each `[<elt> for t in range(num_cores)]` -- as a comprehension or as the loop
+    `A = []; for t in range(num_cores): A.append(<elt>)`;
+  * workload: the one hoisted arithmetic local that the two element expressions use; locals it is built from
+    are inlined (`n = klen - 1; workload = int(n / num_cores) + 1`);
+  * arithmetic is compiled to Lean `Nat` expressions: `int(a / b)` and `a // b` are Nat division (exact for the
+    non-negative operands below 2^53 that occur), `a - b` truncated subtraction (exact whenever the Python
+    value is non-negative -- the correspondence compares the slices handed to the workers with the model's
+    for every run); the operands of the commutative `+`, `*`, `min`, `max` are put in one canonical order
+    (compound, variable, literal; then by text), so `1 + x` and `x + 1` give the same text;
+  * the poll loop: `while <now> - <start> <op> timeout` (or mirrored `timeout >= ...`), the constant of the one
+    `sleep(...)`, body `if alive: sleep else: join...; break` or the guard form `if not alive: ...; break` +
+    `sleep`, a `while ... else`, the constant compared with `timeout` that switches the timeout off, and
+    where `self.timed_out = True` stands (directly in the loop's `else`, or under `if p.is_alive()` with the kill).
+
+Insisted on: exactly one threshold test, one slice comprehension over `zip` of two `range(num_cores)` lists, one
+hoisted workload, one `while`, one sleep, one timed_out flag; a shape outside these raises (= failed generator).
+No module of the analysed tree is imported or executed.
 """
 import ast
-from fractions import Fraction
+import os
+import sys
 
-from translate import TranslateError, generator, parse, find_func, HEADER
+sys.path.insert(0, os.path.dirname(os.path.abspath(__file__)))
+import astutil_G1 as U  # noqa: E402
+
+# the plug-in and its helpers are inputs too: a change of either regenerates the file
+SELF = ["../verif-self:tools/gen/workers.py", "../verif-self:tools/gen/astutil_G1.py"]
+
+from translate import TranslateError, generator, rat, HEADER  # noqa: E402
 
 SRC = "osaca/semantics/kernel_dg.py"
+CLS = "KernelDG"
+FN = "check_for_loopcarried_dep"
 
-VARS = {"klen": "klen", "num_cores": "numCores", "workload": "workload", "tid": "tid"}
-
-
-def compile_nat(e, names):
-    """Python integer expression -> Lean Nat expression text."""
-    if isinstance(e, ast.Constant) and isinstance(e.value, int) and not isinstance(e.value, bool) and e.value >= 0:
-        return str(e.value)
-    if isinstance(e, ast.Name):
-        if e.id in names:
-            return names[e.id]
-        raise TranslateError("scheduling expression uses unknown name %r (line %d)" % (e.id, e.lineno))
-    if isinstance(e, ast.BinOp):
-        ops = {ast.Add: "+", ast.Sub: "-", ast.Mult: "*", ast.FloorDiv: "/", ast.Mod: "%"}
-        for k, v in ops.items():
-            if isinstance(e.op, k):
-                return "(%s %s %s)" % (compile_nat(e.left, names), v, compile_nat(e.right, names))
-        raise TranslateError("scheduling expression: unsupported operator at line %d" % e.lineno)
-    if isinstance(e, ast.Call) and isinstance(e.func, ast.Name) and not e.keywords:
-        if e.func.id == "int" and len(e.args) == 1:
-            a = e.args[0]
-            if isinstance(a, ast.BinOp) and isinstance(a.op, ast.Div):
-                return "(%s / %s)" % (compile_nat(a.left, names), compile_nat(a.right, names))
-            return compile_nat(a, names)
-        if e.func.id in ("min", "max") and len(e.args) == 2:
-            return "(%s %s %s)" % (e.func.id, compile_nat(e.args[0], names), compile_nat(e.args[1], names))
-    raise TranslateError("scheduling expression: unsupported form at line %d" % getattr(e, "lineno", -1))
+LEAN_VAR = {"klen": "klen", "num_cores": "numCores", "workload": "workload", "tid": "tid"}
+MIRROR = {ast.Lt: ast.Gt, ast.Gt: ast.Lt, ast.LtE: ast.GtE, ast.GtE: ast.LtE, ast.Eq: ast.Eq, ast.NotEq: ast.NotEq}
+NEGATE = {ast.Lt: ast.GtE, ast.GtE: ast.Lt, ast.Gt: ast.LtE, ast.LtE: ast.Gt, ast.Eq: ast.NotEq, ast.NotEq: ast.Eq}
 
 
-def _assign_to(fn, name):
-    hits = [n for n in ast.walk(fn) if isinstance(n, ast.Assign) and len(n.targets) == 1
-            and isinstance(n.targets[0], ast.Name) and n.targets[0].id == name]
-    if len(hits) != 1:
-        raise TranslateError("expected exactly one assignment to %r, found %d" % (name, len(hits)))
-    return hits[0].value
+# --------------------------------------------------------------------------- roles
+class Roles:
+    def __init__(self, sc):
+        self.sc = sc
+        if not sc.is_param("kernel") or not sc.is_param("timeout"):
+            raise TranslateError("%s: parameters `kernel` / `timeout` not found" % FN)
+
+    def _plain_call(self, n, name, nargs):
+        return (isinstance(n, ast.Call) and U.call_name(n) == name and len(n.args) == nargs and not n.keywords)
+
+    def is_kernel(self, n):
+        return isinstance(n, ast.Name) and n.id == "kernel"
+
+    def is_klen(self, n):
+        n = self.sc.deref(n)
+        return self._plain_call(n, "len", 1) and isinstance(n.func, ast.Name) and self.is_kernel(n.args[0])
+
+    def is_cores(self, n):
+        n = self.sc.deref(n)
+        return self._plain_call(n, "cpu_count", 0) and (
+            isinstance(n.func, ast.Name) or (isinstance(n.func.value, ast.Name) and n.func.value.id == "multiprocessing"))
+
+    def is_timeout(self, n):
+        return isinstance(n, ast.Name) and n.id == "timeout"
 
 
-def _range_comp(value, what):
-    """[<elt> for tid in range(num_cores)] -> (elt, loop variable name)"""
-    if not (isinstance(value, ast.ListComp) and len(value.generators) == 1):
-        raise TranslateError("%s: not a single list comprehension" % what)
-    g = value.generators[0]
-    if g.ifs or not isinstance(g.target, ast.Name):
+# --------------------------------------------------------------------------- Nat expressions
+COMM = ("+", "*", "min", "max")
+
+
+def _rank(ir):
+    return {"lit": 2, "var": 1}.get(ir[0], 0)
+
+
+def lean(ir):
+    k = ir[0]
+    if k == "lit":
+        return str(ir[1])
+    if k == "var":
+        return LEAN_VAR[ir[1]]
+    if k == "bin":
+        return "(%s %s %s)" % (lean(ir[2]), ir[1], lean(ir[3]))
+    if k == "div":
+        return "(%s / %s)" % (lean(ir[1]), lean(ir[2]))
+    if k in ("min", "max"):
+        return "(%s %s %s)" % (k, lean(ir[1]), lean(ir[2]))
+    raise AssertionError(ir)
+
+
+def _canon(op, a, b):
+    if op in COMM:
+        ka, kb = (_rank(a), lean(a)), (_rank(b), lean(b))
+        if kb < ka:
+            a, b = b, a
+    return a, b
+
+
+def py(ir):
+    """the same expression as canonical Python text (for the doc comments)"""
+    k = ir[0]
+    if k == "lit":
+        return ast.Constant(value=ir[1])
+    if k == "var":
+        return ast.Name(id=ir[1], ctx=ast.Load())
+    if k == "bin":
+        op = {"+": ast.Add, "-": ast.Sub, "*": ast.Mult, "%": ast.Mod}[ir[1]]()
+        return ast.BinOp(left=py(ir[2]), op=op, right=py(ir[3]))
+    if k == "div":
+        return ast.Call(func=ast.Name(id="int", ctx=ast.Load()),
+                        args=[ast.BinOp(left=py(ir[1]), op=ast.Div(), right=py(ir[2]))], keywords=[])
+    if k in ("min", "max"):
+        return ast.Call(func=ast.Name(id=k, ctx=ast.Load()), args=[py(ir[1]), py(ir[2])], keywords=[])
+    raise AssertionError(ir)
+
+
+def py_text(ir):
+    return ast.unparse(ast.fix_missing_locations(ast.Expression(body=py(ir))))
+
+
+class NatCompiler:
+    """Python integer expression -> IR.  `hoisted` collects the local bindings that are referred to as a
+    variable (mode 'var'); in mode 'inline' they are expanded in place."""
+
+    def __init__(self, roles, loopvar=None, mode="var"):
+        self.r, self.sc, self.loopvar, self.mode = roles, roles.sc, loopvar, mode
+        self.hoisted = []
+
+    def go(self, e, depth=0):
+        if depth > 30:
+            raise TranslateError("scheduling expression too deep")
+        d = depth + 1
+        if isinstance(e, ast.Name) and e.id == self.loopvar:
+            return ("var", "tid")
+        if self.r.is_klen(e):
+            return ("var", "klen")
+        if self.r.is_cores(e):
+            return ("var", "num_cores")
+        ok, v = self.sc.try_ev(e)
+        if ok:
+            if isinstance(v, bool) or not isinstance(v, int) or v < 0:
+                raise TranslateError("scheduling expression: constant %r is not a natural number (line %s)"
+                                     % (v, getattr(e, "lineno", "?")))
+            return ("lit", v)
+        if isinstance(e, ast.Name):
+            r = self.sc.lookup(e.id)
+            if r is None or not isinstance(r[0], ast.AST) or r[1] is not self.sc:
+                raise TranslateError("scheduling expression uses unknown name %r (line %d)" % (e.id, e.lineno))
+            if self.mode == "inline":
+                return self.go(r[0], d)
+            if not any(h is r[0] for h in self.hoisted):
+                self.hoisted.append(r[0])
+            return ("var", "workload")
+        if isinstance(e, ast.BinOp):
+            ops = {ast.Add: "+", ast.Sub: "-", ast.Mult: "*", ast.Mod: "%"}
+            if isinstance(e.op, ast.FloorDiv):
+                return ("div", self.go(e.left, d), self.go(e.right, d))
+            for k, v in ops.items():
+                if isinstance(e.op, k):
+                    a, b = _canon(v, self.go(e.left, d), self.go(e.right, d))
+                    return ("bin", v, a, b)
+            raise TranslateError("scheduling expression: unsupported operator at line %d" % e.lineno)
+        if isinstance(e, ast.Call) and isinstance(e.func, ast.Name) and not e.keywords \
+                and self.sc.lookup(e.func.id) is None:
+            if e.func.id == "int" and len(e.args) == 1:
+                a = self.sc.deref(e.args[0])
+                if isinstance(a, ast.BinOp) and isinstance(a.op, ast.Div):
+                    return ("div", self.go(a.left, d), self.go(a.right, d))
+                return self.go(a, d)
+            if e.func.id in ("min", "max") and len(e.args) == 2:
+                a, b = _canon(e.func.id, self.go(e.args[0], d), self.go(e.args[1], d))
+                return (e.func.id, a, b)
+        raise TranslateError("scheduling expression: unsupported form at line %d" % getattr(e, "lineno", -1))
+
+
+def _range_comp(node, roles, what):
+    """[<elt> for tid in range(num_cores)] (or the equivalent append loop) -> (elt, loop variable name)"""
+    c = U.comp_view(node, roles.sc)
+    if c is None:
+        raise TranslateError("%s: not a single list comprehension / append loop" % what)
+    if c.ifs or not isinstance(c.target, ast.Name):
         raise TranslateError("%s: comprehension has a filter or a tuple target" % what)
-    it = g.iter
-    if not (isinstance(it, ast.Call) and isinstance(it.func, ast.Name) and it.func.id == "range"
-            and len(it.args) == 1 and isinstance(it.args[0], ast.Name) and it.args[0].id == "num_cores"):
+    it = roles.sc.deref(c.iter)
+    if not (isinstance(it, ast.Call) and isinstance(it.func, ast.Name) and it.func.id == "range" and not it.keywords):
         raise TranslateError("%s: does not iterate over range(num_cores)" % what)
-    return value.elt, g.target.id
+    args = list(it.args)
+    if len(args) == 2:
+        ok, v = roles.sc.try_ev(args[0])
+        if not (ok and v == 0 and not isinstance(v, (bool, float))):
+            raise TranslateError("%s: range does not start at 0" % what)
+        args = args[1:]
+    if len(args) != 1 or not roles.is_cores(args[0]):
+        raise TranslateError("%s: does not iterate over range(num_cores)" % what)
+    return c.elt, c.target.id
 
 
-def rat(fr):
-    fr = Fraction(fr)
-    if fr.denominator == 1:
-        return "(%d : Rat)" % fr.numerator
-    return "((%d : Rat) / %d)" % (fr.numerator, fr.denominator)
+def _find_slices(fn, roles):
+    """the comprehension [kernel[s:e] for s, e in zip(A, B)] -> (node, A, B)"""
+    hits = []
+    sc = roles.sc
+    views = [U.comp_view(n, sc) for n in ast.walk(fn) if isinstance(n, (ast.ListComp, ast.GeneratorExp))]
+    views += [U.comp_view(ast.Name(id=nm, ctx=ast.Load()), sc) for nm, b in sc.bind.items()
+              if len(b) == 1 and b[0][0] == "assign" and isinstance(b[0][1], (ast.List, ast.Call))]   # append loops
+    for c in views:
+        if c is None:
+            continue
+        el = c.elt
+        if not (isinstance(el, ast.Subscript) and roles.is_kernel(el.value) and isinstance(el.slice, ast.Slice)):
+            continue
+        sl = el.slice
+        it = sc.deref(c.iter)
+        if (not c.ifs and sl.step is None
+                and isinstance(it, ast.Call) and isinstance(it.func, ast.Name) and it.func.id == "zip"
+                and len(it.args) == 2 and not it.keywords
+                and isinstance(c.target, ast.Tuple) and len(c.target.elts) == 2
+                and all(isinstance(x, ast.Name) for x in c.target.elts)
+                and isinstance(sl.lower, ast.Name) and isinstance(sl.upper, ast.Name)
+                and [sl.lower.id, sl.upper.id] == [x.id for x in c.target.elts]):
+            if not any(h[0] is c.node for h in hits):
+                hits.append((c.node, it.args[0], it.args[1]))
+        else:
+            raise TranslateError("slices of the kernel are not [kernel[s:e] for s, e in zip(starts, ends)] (line %d)" % c.node.lineno)
+    if len(hits) != 1:
+        raise TranslateError("expected one [kernel[s:e] for s, e in zip(starts, ends)], found %d" % len(hits))
+    return hits[0]
 
 
-@generator("WorkersConsts", [SRC])
+# --------------------------------------------------------------------------- the generator
+@generator("WorkersConsts", [SRC] + SELF)
 def gen_workers():
-    tree = parse(SRC)
-    cls = [n for n in ast.walk(tree) if isinstance(n, ast.ClassDef) and n.name == "KernelDG"]
-    if not cls:
-        raise TranslateError("class KernelDG not found")
-    cls = cls[0]
-    fn = find_func(tree, "check_for_loopcarried_dep", "KernelDG")
+    U.reset_cache()
+    cls = U.mod_scope(SRC).cls(CLS)
+    sc = cls.fn(FN)
+    fn = sc.node
+    roles = Roles(sc)
 
-    # ---- threshold: `if klen <op> self.<ATTR>` whose body calls cpu_count()
-    thr_if = None
+    slices, a_starts, a_ends = _find_slices(fn, roles)
+
+    # ---- threshold: the `if` comparing klen with a constant; which branch is the parallel one
+    cands = []
     for node in ast.walk(fn):
-        if isinstance(node, ast.If) and isinstance(node.test, ast.Compare) and len(node.test.ops) == 1:
-            t = node.test
-            r = t.comparators[0]
-            if (isinstance(t.left, ast.Name) and t.left.id == "klen" and isinstance(r, ast.Attribute)
-                    and isinstance(r.value, ast.Name) and r.value.id == "self"):
-                thr_if = node
-    if thr_if is None:
-        raise TranslateError("`if klen <op> self.<THRESHOLD>` not found")
-    attr = thr_if.test.comparators[0].attr
-    cmpop = {ast.GtE: "≥", ast.Gt: ">"}.get(type(thr_if.test.ops[0]))
+        if not isinstance(node, ast.If):
+            continue
+        t, pol = U.strip_not(node.test)
+        if not (isinstance(t, ast.Compare) and len(t.ops) == 1 and type(t.ops[0]) in MIRROR):
+            continue
+        left, right, op = t.left, t.comparators[0], type(t.ops[0])
+        if roles.is_klen(right) and not roles.is_klen(left):
+            left, right, op = right, left, MIRROR[op]
+        if not roles.is_klen(left):
+            continue
+        ok, v = sc.try_ev(right)
+        if not ok:
+            continue
+        if not pol:
+            op = NEGATE[op]
+        cands.append((node, op, right, v))
+    if len(cands) != 1:
+        raise TranslateError("expected exactly one `if len(kernel) <op> <constant>` test, found %d" % len(cands))
+    thr_if, op, thr_node, thr = cands[0]
+    if isinstance(thr, bool) or not isinstance(thr, int) or thr < 0:
+        raise TranslateError("threshold %r is not a natural number" % (thr,))
+    if any(U.contains(s, slices) for s in thr_if.body):
+        pass
+    elif any(U.contains(s, slices) for s in thr_if.orelse):
+        op = NEGATE[op]
+    else:
+        raise TranslateError("the worker slices are not computed under the threshold test")
+    cmpop = {ast.GtE: "≥", ast.Gt: ">"}.get(op)
     if cmpop is None:
         raise TranslateError("threshold comparison is neither >= nor >")
-    thr = None
-    for node in cls.body:
-        if (isinstance(node, ast.Assign) and len(node.targets) == 1 and isinstance(node.targets[0], ast.Name)
-                and node.targets[0].id == attr and isinstance(node.value, ast.Constant)
-                and isinstance(node.value.value, int)):
-            thr = node.value.value
-    if thr is None:
-        raise TranslateError("class attribute %s is not an integer literal" % attr)
-    klen_v = _assign_to(fn, "klen")
-    if not (isinstance(klen_v, ast.Call) and isinstance(klen_v.func, ast.Name) and klen_v.func.id == "len"
-            and len(klen_v.args) == 1 and isinstance(klen_v.args[0], ast.Name) and klen_v.args[0].id == "kernel"):
-        raise TranslateError("klen is not len(kernel)")
-    nc = _assign_to(fn, "num_cores")
-    if not (isinstance(nc, ast.Call) and isinstance(nc.func, ast.Name) and nc.func.id == "cpu_count" and not nc.args):
-        raise TranslateError("num_cores is not cpu_count()")
+    if isinstance(thr_node, ast.Attribute) and isinstance(thr_node.value, ast.Name) \
+            and thr_node.value.id in ("self", "cls", CLS):
+        thr_doc, thr_use = "%s.%s" % (CLS, thr_node.attr), "self.%s" % thr_node.attr
+    else:
+        thr_doc = thr_use = ast.unparse(thr_node)
 
     # ---- scheduling expressions
-    names = {"klen": "klen", "num_cores": "numCores"}
-    workload = compile_nat(_assign_to(fn, "workload"), names)
-    s_elt, s_var = _range_comp(_assign_to(fn, "starts"), "starts")
-    e_elt, e_var = _range_comp(_assign_to(fn, "ends"), "ends")
-    start = compile_nat(s_elt, dict(names, workload="workload", **{s_var: "tid"}))
-    end = compile_nat(e_elt, dict(names, workload="workload", **{e_var: "tid"}))
-    instrs = _assign_to(fn, "instrs")
-    ok = False
-    if isinstance(instrs, ast.ListComp) and len(instrs.generators) == 1 and not instrs.generators[0].ifs:
-        g = instrs.generators[0]
-        it = g.iter
-        if (isinstance(it, ast.Call) and isinstance(it.func, ast.Name) and it.func.id == "zip"
-                and [getattr(a, "id", None) for a in it.args] == ["starts", "ends"]
-                and isinstance(g.target, ast.Tuple) and len(g.target.elts) == 2):
-            a, b = [x.id for x in g.target.elts]
-            el = instrs.elt
-            if (isinstance(el, ast.Subscript) and isinstance(el.value, ast.Name) and el.value.id == "kernel"
-                    and isinstance(el.slice, ast.Slice) and el.slice.step is None
-                    and isinstance(el.slice.lower, ast.Name) and el.slice.lower.id == a
-                    and isinstance(el.slice.upper, ast.Name) and el.slice.upper.id == b):
-                ok = True
-    if not ok:
-        raise TranslateError("instrs is not [kernel[s:e] for s, e in zip(starts, ends)]")
+    s_elt, s_var = _range_comp(a_starts, roles, "starts")
+    e_elt, e_var = _range_comp(a_ends, roles, "ends")
+    cs = NatCompiler(roles, s_var)
+    start = cs.go(s_elt)
+    ce = NatCompiler(roles, e_var)
+    end = ce.go(e_elt)
+    hoisted = list(cs.hoisted)
+    for h in ce.hoisted:
+        if not any(h is x for x in hoisted):
+            hoisted.append(h)
+    if len(hoisted) != 1:
+        raise TranslateError("expected the slice bounds to use exactly one hoisted local (workload), found %d"
+                             % len(hoisted))
+    workload = NatCompiler(roles, None, "inline").go(hoisted[0])
 
     # ---- poll loop
     loops = [n for n in ast.walk(fn) if isinstance(n, ast.While)]
     if len(loops) != 1:
         raise TranslateError("expected exactly one while loop, found %d" % len(loops))
     loop = loops[0]
-    t = loop.test
-    if not (isinstance(t, ast.Compare) and len(t.ops) == 1 and isinstance(t.comparators[0], ast.Name)
-            and t.comparators[0].id == "timeout" and isinstance(t.left, ast.BinOp) and isinstance(t.left.op, ast.Sub)):
+    t, pol = U.strip_not(loop.test)
+    if not (isinstance(t, ast.Compare) and len(t.ops) == 1 and type(t.ops[0]) in MIRROR):
         raise TranslateError("while condition is not `<now> - <start> <op> timeout`")
-    loop_le = {ast.LtE: True, ast.Lt: False}.get(type(t.ops[0]))
+    left, right, wop = t.left, t.comparators[0], type(t.ops[0])
+    if roles.is_timeout(left):
+        left, right, wop = right, left, MIRROR[wop]
+    if not pol:
+        wop = NEGATE[wop]
+    if not (roles.is_timeout(right) and isinstance(left, ast.BinOp) and isinstance(left.op, ast.Sub)):
+        raise TranslateError("while condition is not `<now> - <start> <op> timeout`")
+    loop_le = {ast.LtE: True, ast.Lt: False}.get(wop)
     if loop_le is None:
         raise TranslateError("while condition operator is neither <= nor <")
-    sleeps = [n for n in ast.walk(loop) if isinstance(n, ast.Call) and isinstance(n.func, ast.Attribute)
-              and n.func.attr == "sleep"]
-    if len(sleeps) != 1 or not (sleeps[0].args and isinstance(sleeps[0].args[0], ast.Constant)):
-        raise TranslateError("expected one sleep(<literal>) in the poll loop")
-    interval = Fraction(repr(sleeps[0].args[0].value))
-    # the loop body: `if any(p.is_alive() ...): sleep else: join...; break`
-    body_if = [n for n in loop.body if isinstance(n, ast.If)]
-    if len(loop.body) != 1 or len(body_if) != 1:
+    sleeps = [n for n in ast.walk(loop) if U.call_name(n) == "sleep"]
+    if len(sleeps) != 1 or len(sleeps[0].args) != 1 or sleeps[0].keywords:
+        raise TranslateError("expected one sleep(<constant>) in the poll loop")
+    interval = sc.ev_num(sleeps[0].args[0], "sleep interval")
+    # the loop body: `if any(p.is_alive() ...): sleep else: join...; break` (or the guard-clause form)
+    dec = U.split_if_else(loop.body)
+    if dec is None:
         raise TranslateError("poll loop body is not a single if/else")
-    bi = body_if[0]
-    if not (any(n is sleeps[0] for n in ast.walk(ast.Module(body=bi.body, type_ignores=[])))
-            and any(isinstance(n, ast.Break) for n in bi.orelse)):
+    test, then, other = dec
+    in_then = any(U.contains(s, sleeps[0]) for s in then)
+    in_other = any(U.contains(s, sleeps[0]) for s in other)
+    brk_then = any(isinstance(s, ast.Break) for s in then)
+    brk_other = any(isinstance(s, ast.Break) for s in other)
+    if not ((in_then and brk_other and not brk_then) or (in_other and brk_then and not brk_other)):
         raise TranslateError("poll loop: expected `if alive: sleep else: ... break`")
+    tt, tpol = U.strip_not(test)
+    if not any(U.call_name(n) == "is_alive" for n in ast.walk(tt)):
+        raise TranslateError("poll loop: the decision does not test is_alive()")
+    if tpol != in_then:
+        raise TranslateError("poll loop: sleeps when no worker is alive")
     if not loop.orelse:
         raise TranslateError("poll loop has no else branch")
+
     # placement of `self.timed_out = True`
     def is_flag(n):
-        return (isinstance(n, ast.Assign) and len(n.targets) == 1 and isinstance(n.targets[0], ast.Attribute)
-                and n.targets[0].attr == "timed_out" and isinstance(n.value, ast.Constant) and n.value.value is True)
+        if not (isinstance(n, ast.Assign) and len(n.targets) == 1 and isinstance(n.targets[0], ast.Attribute)
+                and n.targets[0].attr == "timed_out"):
+            return False
+        ok, v = sc.try_ev(n.value)
+        return ok and v is True
 
     flags = [n for n in ast.walk(fn) if is_flag(n)]
     if len(flags) != 1:
@@ -182,30 +357,33 @@ def gen_workers():
         only_if_alive = None
         for n in ast.walk(ast.Module(body=loop.orelse, type_ignores=[])):
             if isinstance(n, ast.If) and any(m is flags[0] for m in n.body):
-                c = n.test
-                if (isinstance(c, ast.Call) and isinstance(c.func, ast.Attribute) and c.func.attr == "is_alive"):
+                if any(pl and U.call_name(a) == "is_alive" for a, pl in U.atoms(n.test, True)):
                     # the same `if` must also do the kill
-                    kills = [m for m in ast.walk(n) if isinstance(m, ast.Call) and isinstance(m.func, ast.Attribute)
-                             and m.func.attr in ("kill", "terminate")]
+                    kills = [m for m in ast.walk(n) if U.call_name(m) in ("kill", "terminate")]
                     if kills:
                         only_if_alive = True
         if only_if_alive is None:
             raise TranslateError("`self.timed_out = True` is neither in the loop's else nor under `if p.is_alive()` next to the kill")
-    # the literal that switches the timeout off: `if timeout == <lit>` around the joins
-    off = None
+    # the constant that switches the timeout off: `timeout == <const>` around the joins
+    offs = set()
     for n in ast.walk(fn):
-        if (isinstance(n, ast.If) and isinstance(n.test, ast.Compare) and len(n.test.ops) == 1
-                and isinstance(n.test.ops[0], ast.Eq) and isinstance(n.test.left, ast.Name) and n.test.left.id == "timeout"):
-            c = n.test.comparators[0]
-            if isinstance(c, ast.UnaryOp) and isinstance(c.op, ast.USub) and isinstance(c.operand, ast.Constant):
-                off = -c.operand.value
-            elif isinstance(c, ast.Constant):
-                off = c.value
-    if off is None:
-        raise TranslateError("`if timeout == <literal>` not found")
+        if isinstance(n, ast.Compare) and len(n.ops) == 1 and isinstance(n.ops[0], (ast.Eq, ast.NotEq)):
+            l, r = n.left, n.comparators[0]
+            if roles.is_timeout(r):
+                l, r = r, l
+            if roles.is_timeout(l):
+                v = sc.ev_num(r, "timeout switch")
+                if isinstance(v, float):
+                    if v != int(v):
+                        raise TranslateError("timeout switch %r is not an integer" % v)
+                    v = int(v)
+                offs.add(v)
+    if len(offs) != 1:
+        raise TranslateError("`if timeout == <constant>` not found (or several different ones)")
+    off = offs.pop()
 
     # ---- _extend_path: one extend per root, target = root + offset
-    fe = find_func(tree, "_extend_path", "KernelDG")
+    fe = cls.fn("_extend_path").node
     fors = [n for n in fe.body if isinstance(n, ast.For)]
     if len(fors) != 1 or not (isinstance(fors[0].iter, ast.Name) and fors[0].iter.id == "kernel"):
         raise TranslateError("_extend_path: expected one `for instr in kernel` loop")
@@ -215,18 +393,18 @@ def gen_workers():
 
     sig = "(klen numCores workload tid : Nat)"
     out = [HEADER, "set_option linter.unusedVariables false\n", "namespace OsacaVerif.Gen\n"]
-    out.append("/-- `KernelDG.%s` -/" % attr)
+    out.append("/-- `%s` -/" % thr_doc)
     out.append("def instructionThreshold : Nat := %d\n" % thr)
-    out.append("/-- `klen %s self.%s`: the multi-process search is used -/" % (cmpop, attr))
+    out.append("/-- `klen %s %s`: the multi-process search is used -/" % (cmpop, thr_use))
     out.append("def useParallel (klen : Nat) : Bool := decide (klen %s instructionThreshold)\n" % cmpop)
-    out.append("/-- `workload = %s` -/" % ast.unparse(_assign_to(fn, "workload")))
-    out.append("def workloadExpr %s : Nat := %s\n" % (sig, workload))
-    out.append("/-- element of `starts`: `%s` -/" % ast.unparse(s_elt))
-    out.append("def startExpr %s : Nat := %s\n" % (sig, start))
-    out.append("/-- element of `ends`: `%s` -/" % ast.unparse(e_elt))
-    out.append("def endExpr %s : Nat := %s\n" % (sig, end))
-    out.append("/-- `time.sleep(%s)` of the poll loop -/" % ast.unparse(sleeps[0].args[0]))
-    out.append("def pollInterval : Rat := %s\n" % rat(interval))
+    out.append("/-- `workload = %s` -/" % py_text(workload))
+    out.append("def workloadExpr %s : Nat := %s\n" % (sig, lean(workload)))
+    out.append("/-- element of `starts`: `%s` -/" % py_text(start))
+    out.append("def startExpr %s : Nat := %s\n" % (sig, lean(start)))
+    out.append("/-- element of `ends`: `%s` -/" % py_text(end))
+    out.append("def endExpr %s : Nat := %s\n" % (sig, lean(end)))
+    out.append("/-- `time.sleep(%s)` of the poll loop -/" % U.dec_text(interval))
+    out.append("def pollInterval : Rat := %s\n" % rat(U.dec_text(interval)))
     out.append("/-- the poll loop runs while `now - start <= timeout` (true) or `<` (false) -/")
     out.append("def loopCondLe : Bool := %s\n" % ("true" if loop_le else "false"))
     out.append("/-- `timeout == %s` switches the timeout off (plain joins) -/" % off)
